@@ -14,7 +14,7 @@ if only:
     units = {k: v for k, v in units.items() if any(o in k for o in only)}
 cfg = Config('quick')
 t0 = time.time()
-res = run_units(reg, units, cfg, jobs=1 if len(units) == 1 else None)
+res = run_units(reg, units, cfg, jobs=None)
 for r in res:
     print('==', r['unit'], 'paths', r['paths'], 'wall', r['wall_s'], 'solver', r['solver_seconds'])
     if r['crash']:
@@ -25,6 +25,9 @@ for r in res:
         flag = {'proved': ' ok ', 'refuted': 'FAIL', 'undecided': ' ?? ', 'unchecked': ' -- '}[o['status']]
         print('  ', flag, o['name'], '(%s, %.2fs, %d paths)' % (o['backend'], o['seconds'], o['paths']), o.get('detail', ''))
         if o['status'] == 'refuted':
-            print('        model', json.dumps(o.get('model'))[:600])
+            m = o.get('model') or {}
+            short = {k: (v.get('text') if isinstance(v, dict) else v) for k, v in m.items()
+                     if not (isinstance(v, bool) and not v) and k != '_decisions' and not k.startswith('parsing_state._math_all')}
+            print('        model', json.dumps(short)[:900])
     print('   covers', r['covers'])
 print('total %.1fs' % (time.time() - t0))
